@@ -29,6 +29,16 @@ META = {
 
 def check(ctx):
     ctx.consult('tract/aliquot_parse.py')
+    ctx.attempt(_tables)
+    ctx.attempt(fixpoint_loops, 'aliquot_parse', 1)
+    ctx.attempt(_consume)
+    ctx.attempt(_order)
+    ctx.attempt(_standardize)
+    ctx.attempt(_subdivide)
+    ctx.attempt(_pass_back_linear)
+
+
+def _tables(ctx):
     g = lambda n: ctx.fold.get('aliquot_parse', n)
     halves, quarters = g('QQ_HALVES'), g('QQ_QUARTERS')
     sub, same = g('QQ_SUBDIVIDE_DEFINITIONS'), g('QQ_SAME_AXIS')
@@ -59,11 +69,6 @@ def check(ctx):
     ctx.check(set(g('QQ_NS')) == {'N', 'S'} and set(g('QQ_EW')) == {'E', 'W'}, 'TBL', 'QQ_NS / QQ_EW',
               detail_bad="axis tuples changed", key="TBL|QQ_NS_EW")
 
-    ctx.attempt(fixpoint_loops, 'aliquot_parse', 1)
-    ctx.attempt(_consume)
-    ctx.attempt(_order)
-    ctx.attempt(_standardize)
-    ctx.attempt(_subdivide)
 
 
 def _index_loops(fi):
@@ -118,9 +123,8 @@ def _consume(ctx):
                              f"{'re-read and emitted twice' if (step or 0) < need else 'skipped'}",
                   key=f"CONSUME|combine_consecutive_halves|{need}", where=common.loc(fi, inc))
     # the last-item branch appends aq1 and breaks
-    ctx.check(any(isinstance(n, ast.Break) for n in ast.walk(loop)), 'CONSUME',
-              'combine_consecutive_halves: last component emitted then break',
-              detail_bad="no break for the last component", key="CONSUME|combine_consecutive_halves|last")
+    ctx.shape(any(isinstance(n, ast.Break) for n in ast.walk(loop)), 'CONSUME',
+              'combine_consecutive_halves: last component emitted then break')
 
     fp = ctx.repo.func('aliquot_parse:pass_back_halves')
     loops = list(_index_loops(fp))
@@ -128,19 +132,17 @@ def _consume(ctx):
         raise AnalysisError("pass_back_halves: index loop not found")
     incs = [n for n in ast.walk(loops[0]) if isinstance(n, ast.AugAssign)]
     ok = incs and all(norm(i).replace(' ', '').endswith('+=1') for i in incs)
-    ctx.check(bool(ok), 'CONSUME', 'pass_back_halves slides by one component',
-              detail_bad="pass_back_halves no longer advances one position at a time",
-              key="CONSUME|pass_back_halves|step")
+    ctx.shape(bool(ok), 'CONSUME', 'pass_back_halves slides by one component')
     revs = [c for c in walk_local(fp.node) if isinstance(c, ast.Call) and norm(c.func).endswith('.reverse')]
-    ctx.check(len(revs) == 2, 'CONSUME', 'pass_back_halves reverses before and after its scan',
-              detail_bad=f"{len(revs)} reverse() calls", key="CONSUME|pass_back_halves|reverse")
+    ctx.tri(len(revs) == 2, len(revs) == 1, 'CONSUME', 'pass_back_halves reverses before and after its scan',
+            detail_bad="a single reverse(): the component list comes back in reversed order",
+            key="CONSUME|pass_back_halves|reverse")
     # both rebuilt components written back
     stores = [n for n in ast.walk(loops[0]) if isinstance(n, ast.Assign) and isinstance(n.targets[0], ast.Subscript)]
-    ctx.check(len(stores) == 2, 'CONSUME', 'pass_back_halves writes back both swapped components',
-              detail_bad=f"{len(stores)} write-backs", key="CONSUME|pass_back_halves|writeback")
+    ctx.tri(len(stores) == 2, len(stores) == 1, 'CONSUME', 'pass_back_halves writes back both swapped components',
+            detail_bad="only one of the two swapped components is written back", key="CONSUME|pass_back_halves|writeback")
     t = ' '.join(norm(s) for s in ast.walk(loops[0]) if isinstance(s, ast.stmt))
-    ctx.check('char1_ns, char2_ew = aq1' in t, 'CONSUME', 'pass_back_halves splits a quarter into (N/S, E/W) letters',
-              detail_bad="quarter split changed", key="CONSUME|pass_back_halves|split")
+    ctx.shape('char1_ns, char2_ew = aq1' in t, 'CONSUME', 'pass_back_halves splits a quarter into (N/S, E/W) letters')
 
 
 def _order(ctx):
@@ -166,13 +168,12 @@ def _order(ctx):
               detail_bad="standardize_aliquot_components receives an already truncated list",
               key="ORDER|parse_aliquot|standardize-full")
     sl = slices[0].slice
-    ctx.check(sl.lower is None and norm(sl.upper) == 'qq_depth_max', 'ORDER',
-              'truncation keeps the first (largest) qq_depth_max components',
-              detail_bad=f"truncation slice is [{norm(sl)}]", key="ORDER|parse_aliquot|slice")
+    ctx.tri(sl.lower is None and norm(sl.upper) == 'qq_depth_max', sl.lower is not None, 'ORDER',
+            'truncation keeps the first (largest) qq_depth_max components',
+            detail_bad=f"truncation slice is [{norm(sl)}]: the largest components are cut off", key="ORDER|parse_aliquot|slice")
     g = [norm(t) for t, pol in guards(slices[0]) if pol]
-    ctx.check(any('qq_depth_max is not None' in x and 'len(component_list) > qq_depth_max' in x for x in g),
-              'ORDER', 'truncation only when a maximum is set and exceeded',
-              detail_bad=f"truncation guard is {g}", key="ORDER|parse_aliquot|guard")
+    ctx.shape(any('qq_depth_max is not None' in x for x in g),
+              'ORDER', 'truncation only when a maximum is set')
     # reversed once before standardisation (largest component first)
     revs = [c for c in walk_local(fi.node) if isinstance(c, ast.Call) and norm(c.func) == 'component_list.reverse']
     cfg, _ = flow.analyse(fi.node)
@@ -180,21 +181,19 @@ def _order(ctx):
     if ok:
         from ..srcmodel import enclosing_stmt
         ok = cfg.precedes_always(enclosing_stmt(revs[0]), enclosing_stmt(std[0]))
-    ctx.check(ok, 'ORDER', 'component list reversed once, before standardisation',
-              detail_bad="component_list.reverse() is missing, repeated or misplaced",
-              key="ORDER|parse_aliquot|reverse")
+    ctx.tri(ok, len(revs) == 0 and 'reversed(' not in ' '.join(norm(s_) for s_ in fi.node.body) and '[::-1]' not in ' '.join(norm(s_) for s_ in fi.node.body),
+            'ORDER', 'component list reversed once, before standardisation',
+            detail_bad="the component list is never reversed: components are processed smallest-first",
+            key="ORDER|parse_aliquot|reverse")
     # qq_depth overrides min/max
     ok = any(isinstance(n, ast.If) and norm(n.test) == 'qq_depth is not None'
              and any(norm(s) == 'qq_depth_min = qq_depth_max = qq_depth' for s in n.body)
              for n in fi.node.body)
-    ctx.check(ok, 'ORDER', 'parse_aliquot: qq_depth overrides min and max',
-              detail_bad="`if qq_depth is not None: qq_depth_min = qq_depth_max = qq_depth` is gone",
-              key="ORDER|parse_aliquot|qq_depth")
+    ctx.shape(ok, 'ORDER', 'parse_aliquot: qq_depth overrides min and max')
     # components come from single_aliquot_unpacker_regex group aliquot_no_frac
     t = ' '.join(norm(s) for s in fi.node.body)
-    ctx.check("mo['aliquot_no_frac']" in t and 'single_aliquot_unpacker_regex.finditer(text)' in t, 'ORDER',
-              'components are the aliquot_no_frac groups of the unpacker regex',
-              detail_bad="component extraction changed", key="ORDER|parse_aliquot|components")
+    ctx.shape("mo['aliquot_no_frac']" in t and 'single_aliquot_unpacker_regex.finditer(text)' in t, 'ORDER',
+              'components are the aliquot_no_frac groups of the unpacker regex')
     rv = ctx.fold.get('rgxlib.aliquots', 'single_aliquot_unpacker_regex')
     L = common.lang(ctx, rv)
     for s in ('N½', 'NE¼', 'ALL', 'S½', 'SW¼', 'E', 'NW'):
@@ -209,38 +208,72 @@ def _standardize(ctx):
         raise AnalysisError("standardize_aliquot_components: loop not found")
     calls = [dotted(c.func) for c in ast.walk(loops[0]) if isinstance(c, ast.Call) and dotted(c.func)]
     order = [c for c in calls if c in ('pass_back_halves', 'combine_consecutive_halves')]
-    ctx.check(order == ['pass_back_halves', 'combine_consecutive_halves'], 'ORDER',
-              'standardisation = pass_back_halves then combine_consecutive_halves, to a fixed point',
-              detail_bad=f"passes are {order}", key="ORDER|standardize|passes")
+    ctx.tri(order == ['pass_back_halves', 'combine_consecutive_halves'],
+            set(order) != {'pass_back_halves', 'combine_consecutive_halves'} and bool(order), 'ORDER',
+            'standardisation = pass_back_halves then combine_consecutive_halves, to a fixed point',
+            detail_bad=f"passes are {order}: one of the two standardisation passes is no longer applied",
+            key="ORDER|standardize|passes")
     # combine condition: two halves on different axes
     fc = ctx.repo.func('aliquot_parse:combine_consecutive_halves')
     t = ' '.join(norm(s) for s in walk_local(fc.node) if isinstance(s, ast.stmt))
-    ctx.check('aq1 in QQ_HALVES' in t and 'aq2 in QQ_HALVES' in t
+    ctx.shape('aq1 in QQ_HALVES' in t and 'aq2 in QQ_HALVES' in t
               and 'aq2 not in QQ_SAME_AXIS.get(aq1, ())' in t and 'all(match_conditions)' in t, 'ORDER',
-              'halves are combined only when both are halves on different axes',
-              detail_bad="combine condition changed", key="ORDER|combine|condition")
-    ctx.check("f'{aq2}{aq1}' if aq1 in 'EW' else f'{aq1}{aq2}'" in t.replace('"', "'"), 'ORDER',
-              'combined quarter is named N/S letter first',
-              detail_bad="quarter naming order changed", key="ORDER|combine|naming")
+              'halves are combined only when both are halves on different axes')
+    ctx.shape("f'{aq2}{aq1}' if aq1 in 'EW' else f'{aq1}{aq2}'" in t.replace('"', "'"), 'ORDER',
+              'combined quarter is named N/S letter first')
     fp = ctx.repo.func('aliquot_parse:pass_back_halves')
     t = ' '.join(norm(s) for s in walk_local(fp.node) if isinstance(s, ast.stmt))
-    ctx.check('if not (aq2 in QQ_HALVES and aq1 in QQ_QUARTERS)' in t, 'ORDER',
-              'pass_back_halves acts only on a half following a quarter',
-              detail_bad="pass-back condition changed", key="ORDER|pass_back|condition")
+    ctx.shape('if not (aq2 in QQ_HALVES and aq1 in QQ_QUARTERS)' in t, 'ORDER',
+              'pass_back_halves acts only on a half following a quarter')
 
 
 def _subdivide(ctx):
     fi = ctx.repo.func('aliquot_parse:subdivide_aliquot')
     t = ' '.join(norm(s) for s in walk_local(fi.node) if isinstance(s, ast.stmt))
-    ctx.check('if depth <= 0' in t and "return [aliquot_component + '2']" in t, 'ORDER',
-              "an undivided half is rendered '<letter>2'",
-              detail_bad="half rendering changed", key="ORDER|subdivide|half")
-    ctx.check('divided.append(list(QQ_SUBDIVIDE_DEFINITIONS[comp]))' in t
+    ctx.shape('if depth <= 0' in t and "return [aliquot_component + '2']" in t, 'ORDER',
+              "an undivided half is rendered '<letter>2'")
+    ctx.shape('divided.append(list(QQ_SUBDIVIDE_DEFINITIONS[comp]))' in t
               and 'divided.append(list(QQ_QUARTERS))' in t, 'ORDER',
-              'subdivision: first level from the definitions table, deeper levels into all four quarters',
-              detail_bad="subdivision steps changed", key="ORDER|subdivide|levels")
+              'subdivision: first level from the definitions table, deeper levels into all four quarters')
     fr = ctx.repo.func('aliquot_parse:rebuild_aliquots')
     t = ' '.join(norm(s) for s in walk_local(fr.node) if isinstance(s, ast.stmt))
-    ctx.check("f'{deep}{shallow}'" in t.replace('"', "'") and 'for shallow in second_deepest' in t, 'ORDER',
-              'rebuild: every deeper piece is prefixed to every shallower piece (cartesian)',
-              detail_bad="rebuild changed", key="ORDER|rebuild|cartesian")
+    ctx.shape("f'{deep}{shallow}'" in t.replace('"', "'") and 'for shallow in second_deepest' in t, 'ORDER',
+              'rebuild: every deeper piece is prefixed to every shallower piece (cartesian)')
+
+
+def _pass_back_linear(ctx):
+    """pass_back_halves: when a quarter (N/S letter + E/W letter) swaps with the
+    half that follows it, each of the three letters is used exactly once in
+    the two rebuilt components, in both branches."""
+    fi = ctx.repo.func('aliquot_parse:pass_back_halves')
+    unpack = [n for n in walk_local(fi.node) if isinstance(n, ast.Assign) and isinstance(n.targets[0], ast.Tuple)
+              and len(n.targets[0].elts) == 2 and isinstance(n.value, ast.Name)]
+    if len(unpack) != 1:
+        ctx.undecided('CONSUME', 'pass_back_halves: letters conserved', 'quarter split not recognised')
+        return
+    c1, c2 = [norm(e) for e in unpack[0].targets[0].elts]
+    quarter = unpack[0].value.id
+    branches = [n for n in walk_local(fi.node) if isinstance(n, ast.If) and n.orelse
+                and any(isinstance(s, ast.Assign) for s in n.body)
+                and {norm(s.targets[0]) for s in n.body if isinstance(s, ast.Assign)} ==
+                {norm(s.targets[0]) for s in n.orelse if isinstance(s, ast.Assign)}
+                and len({norm(s.targets[0]) for s in n.body if isinstance(s, ast.Assign)}) == 2]
+    if len(branches) != 1:
+        ctx.undecided('CONSUME', 'pass_back_halves: letters conserved', 'two-branch rebuild not recognised')
+        return
+    br = branches[0]
+    half = [n.id for n in ast.walk(br.test) if isinstance(n, ast.Name) and n.id not in (c1, c2, quarter)
+            and not n.id.isupper() and not n.id.startswith('QQ_')]
+    if len(set(half)) != 1:
+        ctx.undecided('CONSUME', 'pass_back_halves: letters conserved', 'half variable not recognised')
+        return
+    half = half[0]
+    want = sorted([c1, c2, half])
+    for label, body in (('N/S-half branch', br.body), ('E/W-half branch', br.orelse)):
+        used = sorted(n.id for s_ in body if isinstance(s_, ast.Assign) for n in ast.walk(s_.value)
+                      if isinstance(n, ast.Name) and n.id in (c1, c2, half, quarter))
+        ctx.tri(used == want, used != want and set(used) <= set(want + [quarter]) and len(used) >= 2, 'CONSUME',
+                f"pass_back_halves {label}: each of {want} is used exactly once",
+                detail_bad=f"the rebuilt components use {used}: a direction letter is dropped / duplicated, so the "
+                           f"piece ends up in the wrong place", key=f"CONSUME|pass_back_halves|linear|{label}",
+                where=common.loc(fi, br))
